@@ -9,6 +9,7 @@ import (
 	"fmt"
 	"os"
 	"path/filepath"
+	"runtime"
 	"sort"
 	"sync"
 	"time"
@@ -32,6 +33,11 @@ type pipeVec struct {
 	ID    int     `json:"id"`
 	Log   bool    `json:"log,omitempty"`   // also return the hook events of the run
 	Async bool    `json:"async,omitempty"` // writes of different producers are issued without waiting for each other (multiset judged)
+	// free: the writes of the schedule are issued by the rendering goroutine itself, one after the other, with no gate
+	// and no hand-shake (what a renderer does); gmp > 0 sets GOMAXPROCS for the run (a render that is over before the
+	// consumer goroutine has been scheduled for the first time is only seen this way)
+	Free bool `json:"free,omitempty"`
+	Gmp  int  `json:"gmp,omitempty"`
 }
 
 // gate is the scheduler gate driven by the hooks.
@@ -200,6 +206,17 @@ const stepTimeout = 10 * time.Second
 // runSchedule drives the producers and the gate through the steps of the vector.
 func runSchedule(r *scripted3, write func(lo, n int), closeBuf func()) {
 	g := r.g
+	if r.v.Free {
+		r.realised, r.next = true, 1
+		for _, st := range r.v.Steps {
+			if st.Op == "W" {
+				write(r.next, st.N)
+				r.next += st.N
+			}
+		}
+		closeBuf()
+		return
+	}
 	type cmd struct{ lo, n int }
 	np := r.v.NP
 	cmds := make([]chan cmd, np+1)
@@ -349,9 +366,25 @@ func runPipeVec(v pipeVec, dir string) pipeObs {
 	defer func() { sdf.VerifHook = nil; render.VerifHook = nil }()
 	o := pipeObs{Ev: "pipe", Vec: v, Delivered: [][2]int{}}
 	g.log = v.Log
+	if v.Free {
+		g.open = true
+	}
+	if v.Gmp > 0 {
+		defer runtime.GOMAXPROCS(runtime.GOMAXPROCS(v.Gmp))
+	}
 	var items []int
 	sc := scripted3{v: v, g: g}
 	path := filepath.Join(dir, fmt.Sprintf("v%d.%s", v.ID, v.Sink))
+	if v.Sink == "stl" || v.Sink == "3mf" || v.Sink == "dxf" || v.Sink == "svg" {
+		// now and then the path already holds a longer file (an earlier, bigger export, junk or well-formed):
+		// nothing of it may survive
+		switch {
+		case v.ID%15 == 7:
+			c15Prefill(path, 3)
+		case v.ID%5 == 0:
+			c15Prefill(path, 0)
+		}
+	}
 	done := make(chan struct{})
 	go func() {
 		defer close(done)
@@ -470,6 +503,8 @@ func runPipeVec(v pipeVec, dir string) pipeObs {
 	return o
 }
 
+var c11Unrealised int
+
 func c11Replay(args []string) error {
 	dir, err := os.MkdirTemp("", "vh-c11-")
 	if err != nil {
@@ -483,7 +518,17 @@ func c11Replay(args []string) error {
 			fatal("bad vector: %v", err)
 		}
 		v.ID = n
+		if c11Unrealised >= 10 {
+			// every schedule that the real code does not follow costs step time-outs (10 s each): after ten of them the
+			// rest of this process's share is not tried (reported as not realised = drift)
+			emit(pipeObs{Ev: "pipe", Vec: v, Returned: true, Realised: false, Note: "not tried: ten schedules of this batch were not realised", Delivered: [][2]int{}})
+			n++
+			return
+		}
 		o := runPipeVec(v, dir)
+		if o.Returned && !o.Realised {
+			c11Unrealised++
+		}
 		emit(o)
 		n++
 		if !o.Returned {
